@@ -2,6 +2,12 @@
 from . import envs
 
 
+import os
+# rolling back a savepoint inside which something was flushed was the open finding F-SP (fixed in /repo 16dd45a);
+# VERIF_SP_STRICT=1 restores the old generator rule (such savepoints are released instead)
+SP_ANY = os.environ.get('VERIF_SP_STRICT') != '1'
+
+
 def entity_info(spec):
     """{class: {'pk': [types], 'attrs': [(attr, type)] settable non-key attributes (incl. inherited),
     'scalar_rels': [(rel, target)], 'coll_rels': [(rel, target)]}} for instantiable classes"""
@@ -129,6 +135,7 @@ def random_program(rng, spec, nsteps, weights=None, nkeys=3, nvals=4, allow_clas
     committed_exists = {}
     committed_class_of = {}
     sp_open = [0]
+    sp_stack = []
     sp_exists = [{}]
     sp_flushed = [False]
     deleted_unflushed = set()   # root keys deleted since the last flush: re-adding them now would be a
@@ -152,8 +159,7 @@ def random_program(rng, spec, nsteps, weights=None, nkeys=3, nvals=4, allow_clas
     for _ in range(nsteps):
         kind = rng.choice(kinds)
         if autoflush and sp_open[0]:
-            # with an autoflushing session any load inside the savepoint may flush: such a savepoint is released,
-            # never rolled back (open finding F-SP)
+            # with an autoflushing session any load inside the savepoint may flush (only matters under VERIF_SP_STRICT)
             sp_flushed[0] = True
         if kind in ('add', 'readd'):
             cname = rng.choice(classes)
@@ -227,26 +233,32 @@ def random_program(rng, spec, nsteps, weights=None, nkeys=3, nvals=4, allow_clas
                 continue
             prog.append([kind, k[0], list(k[1]), rel, tk[0], list(tk[1])])
         elif kind == 'sp_begin':
-            if sp_open[0] == 0:
+            # savepoints nest up to two levels
+            if sp_open[0] < (2 if SP_ANY else 1):
                 prog.append(['sp_begin'])
-                sp_open[0] = 1
+                sp_open[0] += 1
                 sp_flushed[0] = False
-                sp_exists[0] = dict(exists)
+                sp_stack.append((dict(exists), dict(class_of), set(deleted_unflushed), set(deleted_uncommitted)))
         elif kind == 'sp_commit':
-            if sp_open[0] == 1:
+            if sp_open[0] >= 1:
                 prog.append(['sp_commit'])
-                sp_open[0] = 0
+                sp_open[0] -= 1
+                sp_stack.pop()
         elif kind == 'sp_rollback':
-            if sp_open[0] == 1:
-                # a savepoint inside which something was flushed is released, not rolled back: rolling it back
-                # is the open finding F-SP (pinned cases only)
-                prog.append(['sp_rollback'] if not sp_flushed[0] else ['sp_commit'])
-                sp_open[0] = 0
-                # entities created inside the savepoint are gone; the generator's shadow keeps it simple and
-                # forgets every entity touched since (it may skip some later steps, which is harmless)
-                exists = dict(sp_exists[0])
+            if sp_open[0] >= 1:
+                # VERIF_SP_STRICT=1: a savepoint inside which something was flushed is released, not rolled back
+                # (what the generators did while F-SP was open)
+                rb = not sp_flushed[0] or SP_ANY
+                prog.append(['sp_rollback'] if rb else ['sp_commit'])
+                sp_open[0] -= 1
+                snap = sp_stack.pop()
+                if rb:
+                    # back to the shadow at SAVEPOINT
+                    exists, class_of = dict(snap[0]), dict(snap[1])
+                    deleted_unflushed, deleted_uncommitted = set(snap[2]), set(snap[3])
         elif kind == 'rollback':
             sp_open[0] = 0
+            del sp_stack[:]
             prog.append(['rollback'])
             # back to the shadow of the last commit (existence and class of every key)
             exists = dict(committed_exists)
@@ -254,9 +266,11 @@ def random_program(rng, spec, nsteps, weights=None, nkeys=3, nvals=4, allow_clas
             deleted_unflushed.clear()
             deleted_uncommitted.clear()
         else:
-            if kind == 'commit' and sp_open[0]:
-                prog.append(['sp_commit'])
-                sp_open[0] = 0
+            if kind == 'commit':
+                while sp_open[0]:
+                    prog.append(['sp_commit'])
+                    sp_open[0] -= 1
+                del sp_stack[:]
             prog.append([kind])
             if kind in ('flush', 'query'):
                 sp_flushed[0] = True
@@ -267,8 +281,9 @@ def random_program(rng, spec, nsteps, weights=None, nkeys=3, nvals=4, allow_clas
             if kind == 'commit':
                 committed_exists = dict(exists)
                 committed_class_of = dict(class_of)
-    if sp_open[0]:
+    while sp_open[0]:
         prog.append(['sp_commit'])
+        sp_open[0] -= 1
     prog.append(['commit'])
     return prog
 
